@@ -130,9 +130,17 @@ def on_frontier(ctx, workload, a, kw, result):
             done = [ps is not None and ps.state == "COMPLETED" for _, ps in par]
             ok = (any(done) if node.get("terminal") else all(done)) if par else True
             if not ok:
+                inc = [ps for _, ps in par if ps is not None and ps.state != "COMPLETED"]
+                cause = {
+                    "parent_states": sorted({ps.state for ps in inc}),
+                    "zero_length_parent": any(_us(ps.task.remaining_time) == 0 for ps in inc),
+                    "deferred_parent": any(ps.state == "SCHEDULED" and (ps.deferred or (
+                        ps.chosen_time is not None and ps.chosen_time < now)) for ps in inc),
+                }
                 ctx.violate("C18", "offered_before_predecessors",
                             f"{s.uname} offered at t={now} to a policy that does not plan ahead while "
-                            f"its predecessors are not complete", {})
+                            f"its predecessors are not complete: "
+                            f"{[(ps.uname, ps.state, _us(ps.task.remaining_time)) for ps in inc]}", cause)
         if st == "VIRTUAL":
             ctx.probe("virtual_task_offered")
         if st == "SCHEDULED":
@@ -323,13 +331,15 @@ def post_c05(ctx, parsed, res):
         ctx.violate("C05", "no_end_row", f"{len(ends)} SIMULATOR_END rows", {})
         return
     end_t = int(ends[0][0])
-    if end_t > timeout:
-        ctx.violate("C05", "ended_after_timeout", f"SIMULATOR_END at {end_t} > loop_timeout {timeout}", {})
-    if ctx.now > timeout:
-        ctx.violate("C05", "ran_past_timeout", f"events handled up to t={ctx.now} > loop_timeout {timeout}",
-                    {"run_at_worker_free": world["flags"]["scheduler_run_at_worker_free"]})
     if not bundled:
         return
+    # an invocation that began before the timeout may carry the end past it by its own runtime
+    slack = max(pol.get("runtime", 0), 0)
+    if end_t > timeout + slack:
+        ctx.violate("C05", "ended_after_timeout", f"SIMULATOR_END at {end_t} > loop_timeout {timeout}", {})
+    if ctx.now > timeout + slack:
+        ctx.violate("C05", "ran_past_timeout", f"events handled up to t={ctx.now} > loop_timeout {timeout}",
+                    {"run_at_worker_free": world["flags"]["scheduler_run_at_worker_free"]})
     # "never ends while released, runnable work remains" (unless at the timeout)
     if end_t < timeout:
         for s in ctx.shadows.values():
@@ -373,9 +383,13 @@ def post_c05(ctx, parsed, res):
             return
         ctx.probe("c05_completeness_evaluated")
         if end_t >= timeout:
+            inv = ctx.invocations
             ctx.violate("C05", "feasible_work_hit_timeout",
                         f"feasible world under {pol['name']} ran until the timeout {timeout} "
-                        f"(work bound {last_rel + need})", {"policy": pol["name"]})
+                        f"(work bound {last_rel + need})",
+                        {"all_tasks_done": all(s.state in ("COMPLETED", "CANCELLED") for s in tasks),
+                         "last_two_invocations_same_instant":
+                             len(inv) >= 2 and inv[-1]["t"] == inv[-2]["t"]})
         for s in tasks:
             if s.state not in ("COMPLETED", "CANCELLED"):
                 ctx.violate("C05", "feasible_task_not_completed",
@@ -532,7 +546,15 @@ def post_c07(ctx, parsed, res):
             ks = ctx.by_key.get((graph, k))
             probs[k] = ctx.nodes[base][k].get("probability", 1.0)
         if len(released) != 1:
-            if not (resolve and len(released) == 0):
+            kid_cancelled_before = any(
+                ctx.by_key.get((graph, k)) is not None and ctx.by_key[(graph, k)].state == "CANCELLED"
+                and ctx.by_key[(graph, k)].cancel_time is not None and cs.finish_time is not None
+                and ctx.by_key[(graph, k)].cancel_time < cs.finish_time for k in kids)
+            if len(released) == 0 and kid_cancelled_before:
+                # a policy had cancelled a child before the conditional completed; nothing is
+                # left to choose from (a consequence of the cancellation, C06's business)
+                ctx.probe("conditional_children_cancelled_by_policy")
+            elif not (resolve and len(released) == 0):
                 ctx.violate("C07", "not_exactly_one_branch",
                             f"conditional {cnode}@{graph} released {released} (children {kids})",
                             {"released": len(released), "resolve_at_submission": bool(resolve)})
